@@ -11,8 +11,8 @@
     * reads      `d[k]`, `d.k` (`__getattr__` :131-138 = `self[attr]`, `KeyError` re-raised as
       `AttributeError`), `d[k1, k2]`, `d.keys()`.
   A failing operation leaves the heap as it was.  `AttributeError` is `Err.other` on the wire.
-  Attribute names are identifiers that do not start with `_` (those are private attributes living in the instance
-  dict, not items; the driver refuses them).  A name that is an attribute of the CLASS (`keys`, `items`, `copy`, ... —
+  Attribute names that start with `_` are private: `d._x = v` writes the instance dict, not the mapping (the instance dict
+  itself is not modelled).  A name that is an attribute of the CLASS (`keys`, `items`, `copy`, ... —
   `shadowed`) is found by python's normal attribute lookup before `__getattr__` is asked: `d.keys` is the bound method
   whatever `d['keys']` holds (`Out.method`), while `d.keys = v` and `del d.keys` still go to the item.
   `d + other` is class-aware (`DA.addC`): for `Dict` (class 1) it is `tree_update`.
@@ -110,6 +110,8 @@ def step [TreeAdd V] (heap : Heap V) : Op V → Res (Heap V × Out V)
       pure (heap.set h { d with items := set k v d.items }, .unit)
   | .setAttr h k v => do
       let d ← deref heap h
+      -- `__setattr__` (:140-144): a private name is an instance attribute, the mapping is not touched
+      if k.startsWith "_" then pure (heap.set h d, .unit) else
       pure (heap.set h { d with items := set k v d.items }, .unit)
   | .delItem h k => do
       let d ← deref heap h
